@@ -336,6 +336,13 @@ def gen_cases(ctx):
     # larger runs (many shots per batch: long chains inside one worker)
     for S, cpu in ([(64, 15), (100, 10), (257, 5), (1000, 15), (513, 1)] if ctx.thorough else [(64, 15)]):
         cases.append(mk("par", S, cpu, seed=rng.randrange(2 ** 31), circ="one", family="par-fork-large"))
+    # shot counts beyond 1024 (not a multiple of 1024) sequentially, and more than 256 shots per worker in a small pool: every shot is
+    # still counted exactly once with weight 1/S and sampled from its own noise
+    big = [rng.randint(1025, 2047), rng.randint(2049, 2600)] if ctx.thorough else [rng.randint(1025, 1900)]
+    for S in big:
+        cases.append(mk("seq", S, seed=rng.randrange(2 ** 31), circ="one", family="seq-large"))
+    for S, cpu in ([(rng.randint(790, 1000), 4), (rng.randint(1300, 1500), 5)] if ctx.thorough else [(rng.randint(790, 1000), 4)]):
+        cases.append(mk("par", S, cpu, seed=rng.randrange(2 ** 31), circ="one", family="par-fork-large"))
     # equal parent seed, different pools (reproducibility of the repaired code; see `repro`)
     for S in ([3, 6, 11, 20, 37] if ctx.thorough else [6, 11]):
         seed = rng.randrange(2 ** 31)
